@@ -15,7 +15,8 @@
      in_odb         the mapped objects are in the reading node's dictionary (else add_variable drops them).
    The prior register state r0 of the device is universally quantified: enabled or not, any mapping. *)
 From Coq Require Import ZArith List Bool.
-From CV Require Import Base.Val Base.Bytes Base.Tys Gen.PdoTables Model.StrictDevice Model.PdoCfg Proofs.PdoCfg_proofs.
+From CV Require Import Base.Val Base.Bytes Base.Tys Gen.PdoTables Model.StrictDevice Model.PdoCfg Proofs.PdoCfg_proofs
+  Gen.SrcC09 Proofs.Src_eq_c09.
 Import ListNotations.
 Open Scope Z_scope.
 
@@ -152,6 +153,69 @@ Example C09_nv_from_od :
            (o_objs ex_od) ex_com (ex_com + 0x200) fresh_cfg [] = Ok (ex_cfg, [0x1ABCDEF0]).
 Proof. vm_compute. reflexivity. Qed.
 
+(* ---- source-text tie: PdoMap.save / PdoMap.read as translated from the CURRENT source (Gen/SrcC09.v, regenerated
+   by tools/tables/src_c09.py on every run) determine the model functions the theorems above are about. *)
+
+(* save(): every value written, expression by expression: the COB-ID word written first (cob | PDO_NOT_VALID | RTR
+   bit) and last (cob | RTR bit, only if enabled), each parameter written iff it is not None, the mapping word
+   index << 16 | subindex << 8 | length (entry_word) of the entries with sub-indices 1, 2, ... *)
+Theorem C09_src_save_values : forall c cob w1 w2 w3 w5 w6 we wl,
+  c_cob c = Some cob ->
+  src_save_values false cob (c_rtr c) (c_enabled c)
+    (osome (c_tt c)) (oget (c_tt c)) (osome (c_inhibit c)) (oget (c_inhibit c))
+    (osome (c_event c)) (oget (c_event c)) (osome (c_sync c)) (oget (c_sync c))
+    false (c_map c) w1 w2 w3 w5 w6 we wl =
+  (Z.lor (Z.lor cob PDO_NOT_VALID) (rtr_bit c),
+   oelse (c_tt c) w2, oelse (c_inhibit c) w3, oelse (c_event c) w5, oelse (c_sync c) w6,
+   last_entry_word (c_map c) we, 1 + zlen (c_map c),
+   if c_enabled c then Z.lor cob (rtr_bit c) else wl).
+Proof. exact src_save_values_eq. Qed.
+
+Theorem C09_src_last_entry_word : forall m e d, last_entry_word (m ++ [e]) d = entry_word e.
+Proof. exact last_entry_word_app. Qed.
+
+(* save(): the ORDER of the write statements (trace of (index, sub, value)), nothing at all when cob_id is None,
+   subscribe() exactly when enabled: the trace is save_writes. *)
+Theorem C09_src_save_trace : forall com mp c cw,
+  src_save_trace (negb (osome (c_cob c))) com mp
+    (Z.lor (Z.lor (oget (c_cob c)) PDO_NOT_VALID) (rtr_bit c)) (oget (c_cob c)) (c_rtr c) (c_enabled c)
+    (osome (c_tt c)) (oget (c_tt c)) (osome (c_inhibit c)) (oget (c_inhibit c))
+    (osome (c_event c)) (oget (c_event c)) (osome (c_sync c)) (oget (c_sync c))
+    false (c_map c) entry_word cw [] false =
+  (save_writes com mp c, osome (c_cob c) && c_enabled c).
+Proof. exact src_save_trace_eq. Qed.
+
+(* read(): COB-ID & 0x1FFFFFFF, enabled = bit 31 clear, rtr_allowed = bit 30 clear, the timers are read exactly for
+   transmission types >= 254 (a failing attempt keeps the old value), subscribe() at the end. *)
+Theorem C09_src_read_decode : forall get objs com mp old subs raw1 raw2 c' s',
+  get com 1 = Ok (Some raw1) -> get com 2 = Ok (Some raw2) ->
+  read_cfg get objs com mp old subs = Ok (c', s') ->
+  let '(cob, en, rtr, ty, inh, ev, sy, sub) :=
+    src_read_decode raw1 raw2 0
+      (after_try (get com 3) (c_inhibit old)) (after_try (get com 5) (c_event old)) (after_try (get com 6) (c_sync old))
+      (c_inhibit old) (c_event old) (c_sync old) false in
+  c_cob c' = Some cob /\ c_enabled c' = en /\ c_rtr c' = rtr /\ c_tt c' = Some ty /\
+  c_inhibit c' = inh /\ c_event c' = ev /\ c_sync c' = sy /\
+  s' = (if sub then subscribe c' subs else subs).
+Proof. exact src_read_decode_eq. Qed.
+
+(* read(): one pass of the entry loop = one step of read_entries: index = word >> 16, subindex = (word >> 8) & 0xFF,
+   size = word & 0x7F, add_variable iff index and size are non-zero. *)
+Theorem C09_src_read_entry : forall get objs mp k f m v,
+  get mp k = Ok (Some v) ->
+  read_entries get objs mp k (S f) m =
+  read_entries get objs mp (k + 1) f
+    (match src_read_entry v false None with
+     | Some (index, subindex, size) => add_variable objs m index subindex (Some size)
+     | None => m
+     end).
+Proof. exact src_read_entry_eq. Qed.
+
+(* read(): _raw_from = DCF value, else default (from_od) / the SDO value *)
+Theorem C09_src_raw_from : forall v d raw,
+  src_raw_from true v d raw = od_pick v d /\ src_raw_from false v d raw = raw.
+Proof. exact src_raw_from_eq. Qed.
+
 Print Assumptions C09_save_accepted_in_order.
 Print Assumptions C09_save_order.
 Print Assumptions C09_save_encodes.
@@ -160,3 +224,9 @@ Print Assumptions C09_subscribe_iff_enabled.
 Print Assumptions C09_dcf_before_default.
 Print Assumptions C09_read_from_od.
 Print Assumptions C09_pdo_indices.
+Print Assumptions C09_src_save_values.
+Print Assumptions C09_src_last_entry_word.
+Print Assumptions C09_src_save_trace.
+Print Assumptions C09_src_read_decode.
+Print Assumptions C09_src_read_entry.
+Print Assumptions C09_src_raw_from.
